@@ -64,6 +64,82 @@ theorem upstreamSum_inv (ds : Array Nat) (data : Array Int) (nd : Int) (j : Nat)
     simp only [List.foldl_cons, List.foldl_nil]
     rw [upstreamSumStep_get ds data nd _ k j (upstreamSum_size ds data nd k) hj hfix]
 
+/-! ### upstream_sum on the full domain -/
+
+def partialUp2 (ds : Array Nat) (data : Array Int) (nd : Int) (j k : Nat) : Int :=
+  ((((List.range k).filter fun i => ds[i]! == j && i != j).filter fun i =>
+      data[i]! != nd && data[j]! != nd && (!upsumFlagged ds data nd j || decide (j < i))).map
+    fun i => data[i]!).sum
+
+theorem partialUp2_succ (ds : Array Nat) (data : Array Int) (nd : Int) (j k : Nat) :
+    partialUp2 ds data nd j (k+1) = partialUp2 ds data nd j k +
+      (if ds[k]! = j ∧ k ≠ j ∧ data[k]! ≠ nd ∧ data[j]! ≠ nd ∧ (upsumFlagged ds data nd j = true → j < k)
+       then data[k]! else 0) := by
+  unfold partialUp2
+  rw [List.range_succ, List.filter_append, List.filter_append, List.map_append, List.sum_append]
+  congr 1
+  by_cases h1 : ds[k]! = j <;> by_cases h2 : k = j <;> by_cases h3 : data[k]! = nd <;>
+    by_cases h4 : data[j]! = nd <;> by_cases h5 : upsumFlagged ds data nd j = true <;>
+    by_cases h6 : j < k <;> simp [h1, h2, h3, h4, h5, h6]
+
+theorem partialUp2_flagged_zero (ds : Array Nat) (data : Array Int) (nd : Int) (j : Nat)
+    (hf : upsumFlagged ds data nd j = true) : ∀ k, k ≤ j + 1 → partialUp2 ds data nd j k = 0 := by
+  intro k
+  induction k with
+  | zero => intro _; simp [partialUp2]
+  | succ k ih =>
+    intro hk
+    rw [partialUp2_succ, ih (by omega)]
+    have : ¬ (j < k) := by omega
+    simp [hf, this]
+
+theorem upstreamSumStep_get_full (ds : Array Nat) (data : Array Int) (nd : Int) (arr : Array Int) (k j : Nat)
+    (hsz : arr.size = ds.size) (hj : j < ds.size) :
+    (upstreamSumStep ds data nd arr k)[j]! =
+      if k = j ∧ upsumFlagged ds data nd j = true then nd
+      else if ds[k]! = j ∧ k ≠ j ∧ data[k]! ≠ nd ∧ data[j]! ≠ nd then arr[j]! + data[k]! else arr[j]! := by
+  unfold upstreamSumStep upsumFlagged
+  simp only [Bool.and_eq_true, bne_iff_ne, ne_eq, Bool.or_eq_true, beq_iff_eq]
+  split
+  · split
+    · rw [get!_setIfInBounds]; grind
+    · rw [get!_setIfInBounds]; grind
+  · grind
+
+theorem upstreamSum_inv_full (ds : Array Nat) (data : Array Int) (nd : Int) (j : Nat) (hj : j < ds.size) (k : Nat) :
+    (upsumFlagged ds data nd j = true → j < k →
+      ((List.range k).foldl (upstreamSumStep ds data nd) (Array.replicate ds.size 0))[j]! =
+        nd + partialUp2 ds data nd j k) ∧
+    (upsumFlagged ds data nd j = false →
+      ((List.range k).foldl (upstreamSumStep ds data nd) (Array.replicate ds.size 0))[j]! =
+        partialUp2 ds data nd j k) := by
+  induction k with
+  | zero =>
+    refine ⟨fun _ h => absurd h (Nat.not_lt_zero _), fun _ => ?_⟩
+    simp [partialUp2, hj]
+  | succ k ih =>
+    rw [partialUp2_succ, List.range_succ, List.foldl_append]
+    simp only [List.foldl_cons, List.foldl_nil]
+    rw [upstreamSumStep_get_full ds data nd _ k j (upstreamSum_size ds data nd k) hj]
+    obtain ⟨ih1, ih2⟩ := ih
+    constructor
+    · intro hf hjk
+      by_cases hkj : k = j
+      · subst hkj
+        rw [if_pos ⟨rfl, hf⟩, partialUp2_flagged_zero ds data nd k hf k (by omega)]
+        simp
+      · have hlt : j < k := by omega
+        rw [if_neg (fun h => hkj h.1), ih1 hf hlt]
+        by_cases hc : ds[k]! = j ∧ k ≠ j ∧ data[k]! ≠ nd ∧ data[j]! ≠ nd
+        · rw [if_pos hc, if_pos ⟨hc.1, hc.2.1, hc.2.2.1, hc.2.2.2, fun _ => hlt⟩]; omega
+        · rw [if_neg hc, if_neg (fun h => hc ⟨h.1, h.2.1, h.2.2.1, h.2.2.2.1⟩)]; omega
+    · intro hf
+      have hnf : ¬ (upsumFlagged ds data nd j = true) := by simp [hf]
+      rw [if_neg (fun h => hnf h.2), ih2 hf]
+      by_cases hc : ds[k]! = j ∧ k ≠ j ∧ data[k]! ≠ nd ∧ data[j]! ≠ nd
+      · rw [if_pos hc, if_pos ⟨hc.1, hc.2.1, hc.2.2.1, hc.2.2.2, fun h => absurd h hnf⟩]
+      · rw [if_neg hc, if_neg (fun h => hc ⟨h.1, h.2.1, h.2.2.1, h.2.2.2.1⟩)]; omega
+
 /-! ### fillnodata_downstream -/
 
 theorem mem_kids {ds : Array Nat} {seq : List Nat} {j c : Nat} (h : c ∈ kids ds seq j) :
